@@ -62,7 +62,13 @@ from .extensions import (
 from .find_unused import used
 from .functions import FunctionDefNode
 from .node_visitor import ErrorContext
-from .safe import is_instance_of_typing_name, is_typing_name, is_union, safe_repr
+from .safe import (
+    is_instance_of_typing_name,
+    is_typing_name,
+    is_union,
+    safe_hasattr,
+    safe_repr,
+)
 from .signature import (
     ANY_SIGNATURE,
     ELLIPSIS_PARAM,
@@ -490,7 +496,7 @@ def _type_from_runtime(
         return SelfTVV
     elif is_typing_name(val, "LiteralString"):
         return TypedValue(str, literal_only=True)
-    elif hasattr(val, "__supertype__"):
+    elif safe_hasattr(val, "__supertype__"):
         if isinstance(val.__supertype__, type):
             # NewType
             return NewTypeValue(val)
